@@ -133,6 +133,12 @@ func (c *m3) desugarList(l []ast.Stmt) []ast.Stmt {
 			out = append(out, s)
 		case *ast.SwitchStmt:
 			out = append(out, c.desugarSwitch(s)...)
+		case *ast.TypeSwitchStmt:
+			for _, cl := range typeSwitchClauses(s) {
+				cl.Body = c.desugarList(cl.Body)
+			}
+			c.noBreakInTypeSwitch(s)
+			out = append(out, s)
 		case *ast.LabeledStmt:
 			switch in := s.Stmt.(type) {
 			case *ast.ForStmt:
@@ -769,7 +775,7 @@ func (c *m3) aliasCheck() {
 		}
 		if id, ok := e.(*ast.Ident); ok && through {
 			if o := c.obj(id); o != nil && c.isLocal(o) {
-				if _, isPtr := o.Type().Underlying().(*types.Pointer); isPtr && abstractName3(o.Type()) == "" {
+				if _, isPtr := o.Type().Underlying().(*types.Pointer); isPtr && abstractName3(o.Type()) == "" && !isHeapPtr4(o.Type()) {
 					return o
 				}
 			}
@@ -798,7 +804,7 @@ func (c *m3) aliasCheck() {
 			for i, r := range s.Rhs {
 				if id, ok := r.(*ast.Ident); ok && len(s.Lhs) == len(s.Rhs) {
 					if o := c.obj(id); o != nil && c.isLocal(o) {
-						if _, isPtr := o.Type().Underlying().(*types.Pointer); isPtr && abstractName3(o.Type()) == "" {
+						if _, isPtr := o.Type().Underlying().(*types.Pointer); isPtr && abstractName3(o.Type()) == "" && !isHeapPtr4(o.Type()) {
 							if l, isId := s.Lhs[i].(*ast.Ident); isId && l.Name != "_" {
 								ptrCopied[o] = s
 								if lo := c.obj(l); lo != nil {
@@ -848,7 +854,7 @@ func (c *m3) aliasCheck() {
 					if cm := c.g.mut[methodKey(c.spec.pkg, tv.Type, sel.Sel.Name)]; cm != nil && cm.recv {
 						if id, isId := stripParens(sel.X).(*ast.Ident); isId {
 							if o := c.obj(id); o != nil && c.isLocal(o) {
-								if _, isPtr := o.Type().Underlying().(*types.Pointer); isPtr {
+								if _, isPtr := o.Type().Underlying().(*types.Pointer); isPtr && !isHeapPtr4(o.Type()) {
 									ptrWritten[o] = s
 								}
 							}
@@ -1187,6 +1193,12 @@ func (c *m3) hasCtl(stmts []ast.Stmt, wantRet, wantBrk, wantCont bool) bool {
 		case *ast.IfStmt:
 			walk(s.Body, depth)
 			walk(s.Else, depth)
+		case *ast.TypeSwitchStmt:
+			for _, cl := range typeSwitchClauses(s) {
+				for _, x := range cl.Body {
+					walk(x, depth)
+				}
+			}
 		case *ast.ForStmt:
 			walk(s.Body, depth+1)
 		case *ast.RangeStmt:
@@ -1214,6 +1226,17 @@ func (c *m3) terminates(stmts []ast.Stmt) bool {
 		return s.Else != nil && c.terminates(s.Body.List) && c.terminates(elseStmts(s.Else))
 	case *ast.BlockStmt:
 		return c.terminates(s.List)
+	case *ast.TypeSwitchStmt:
+		hasDef := false
+		for _, cl := range typeSwitchClauses(s) {
+			if cl.List == nil {
+				hasDef = true
+			}
+			if !c.terminates(cl.Body) {
+				return false
+			}
+		}
+		return hasDef
 	case *ast.ForStmt:
 		// for {} without break: only left by return
 		if id, ok := s.Cond.(*ast.Ident); ok && id.Name == "true" && s.Init == nil && s.Post == nil {
@@ -1261,8 +1284,7 @@ func (c *m3) rootVar(e ast.Expr) types.Object {
 func (c *m3) assigned3(stmts []ast.Stmt, from token.Pos) []types.Object {
 	var out []types.Object
 	seen := map[types.Object]bool{}
-	add := func(e ast.Expr) {
-		o := c.rootVar(e)
+	addOne := func(o types.Object) {
 		if o == nil || !c.isLocal(o) || o.Pos() >= from || seen[o] || (c.erased != nil && c.erased[o]) {
 			return
 		}
@@ -1271,6 +1293,15 @@ func (c *m3) assigned3(stmts []ast.Stmt, from token.Pos) []types.Object {
 		}
 		seen[o] = true
 		out = append(out, o)
+	}
+	add := func(e ast.Expr) {
+		o := c.rootVar(e)
+		addOne(o)
+		// (fourth mode, JSON) a changed alias is written back to where it came from
+		for i := 0; i < 16 && o != nil && c.origins[o] != nil; i++ {
+			o = c.rootVar(c.origins[o].base)
+			addOne(o)
+		}
 	}
 	for _, s := range stmts {
 		ast.Inspect(s, func(n ast.Node) bool {
@@ -1332,6 +1363,13 @@ func (c *m3) assigned3(stmts []ast.Stmt, from token.Pos) []types.Object {
 						}
 					}
 				}
+				if curMode4 {
+					for _, j := range mutArgs3[absCallName4(c.p.info, n)] {
+						if j < len(n.Args) {
+							add(n.Args[j])
+						}
+					}
+				}
 			case *ast.RangeStmt:
 				if n.Tok == token.ASSIGN {
 					if n.Key != nil {
@@ -1344,6 +1382,9 @@ func (c *m3) assigned3(stmts []ast.Stmt, from token.Pos) []types.Object {
 			}
 			return true
 		})
+	}
+	if curHeap4 && c.sig != nil && c.sig.heap && c.touchesHeap(stmts) {
+		out = append(out, c.heapVar())
 	}
 	return out
 }
@@ -1374,6 +1415,9 @@ func (c *m3) retTuple(vals []string) string {
 				vals = append(vals, c.vn(o))
 			}
 		}
+	}
+	if c.sig.heap {
+		vals = append(vals, c.vn(c.heapVar()))
 	}
 	if len(vals) == 0 {
 		return "tt"
@@ -1471,6 +1515,9 @@ func (c *m3) blk(stmts []ast.Stmt, ind string, tail tailFn) {
 		case *ast.BlockStmt:
 			// a block from the desugaring of `else if init; cond`
 			c.blk(append(append([]ast.Stmt{}, s.List...), rest...), ind, tail)
+			return
+		case *ast.TypeSwitchStmt:
+			c.typeSwitch(s, rest, ind, tail)
 			return
 		}
 		c.simple(s, ind)
@@ -1739,16 +1786,26 @@ func (c *m3) storePath(lhs ast.Expr, term string) {
 			pre := "do " + term + " <- "
 			if strings.HasPrefix(c.pend[n-1], pre) {
 				c.pend[n-1] = "do " + name + " <- " + strings.TrimPrefix(c.pend[n-1], pre)
+				if c.origins[o] != nil && c.p.info.Defs[l] == nil {
+					c.propagate4(o)
+				}
 				return
 			}
 		}
 		c.pend = append(c.pend, fmt.Sprintf("let %s := %s in", name, term))
+		if c.origins[o] != nil && c.p.info.Defs[l] == nil {
+			c.propagate4(o) // an alias of a part of a JSON document changed: write it back
+		}
 	case *ast.IndexExpr:
 		xt := c.tyOf(l.X)
 		if xt.k == mMap {
 			m := c.ex(l.X)
 			k := c.ex(l.Index)
-			c.storePath(l.X, c.bind(fmt.Sprintf("Go3.mset %s %s %s %s", c.eqbOf(*xt.key, l), m, k, term)))
+			mod := "Go3"
+			if curMode4 {
+				mod = "Go4" // written in place
+			}
+			c.storePath(l.X, c.bind(fmt.Sprintf("%s.mset %s %s %s %s", mod, c.eqbOf(*xt.key, l), m, k, term)))
 			return
 		}
 		cur := c.listBase(l.X)
@@ -1773,6 +1830,12 @@ func (c *m3) storePath(lhs ast.Expr, term string) {
 			c.fail(lhs, "assignment to `%s`", c.srcText(lhs.Pos(), lhs.End()))
 		}
 		nw := fmt.Sprintf("(%s %s %s)", c.setter(st, l.Sel.Name), base, term)
+		if xt.k == mHPtr {
+			h := c.vn(c.heapVar())
+			c.pend = append(c.pend, fmt.Sprintf("do %s <- Go4.hset %s %s %s ;;", h, h, c.ex(l.X), nw))
+			c.effect = true
+			return
+		}
 		if xt.k == mOpt {
 			c.storeBack(l.X, nw, false)
 		} else {
@@ -1901,6 +1964,22 @@ func (c *m3) assign(s *ast.AssignStmt) {
 			c.storePath(l, v)
 		}
 		return
+	case *ast.TypeAssertExpr:
+		// v, ok := x.(T) on an interface translated as a sum: never panics
+		if from := c.mtL(c.typeOf(r.X), r.X, true); from.k == mSum && len(s.Lhs) == 2 && r.Type != nil {
+			tt := c.typeOf(r.Type)
+			for _, a := range c.g.sumAlts[from.name] {
+				if types.Identical(a.gt, tt) {
+					x := c.ex(r.X)
+					t := c.fresh()
+					c.pend = append(c.pend, fmt.Sprintf("let %s := match %s with %s v_ => Some v_ | _ => None end in", t, x, a.ctor))
+					c.storePath(s.Lhs[0], fmt.Sprintf("(match %s with Some v_ => v_ | None => %s end)", t, c.zeroT(a.t, r)))
+					c.storePath(s.Lhs[1], fmt.Sprintf("(match %s with Some _ => true | None => false end)", t))
+					return
+				}
+			}
+			c.fail(r, "type assertion to a type that is not one of the declared dynamic types")
+		}
 	case *ast.IndexExpr:
 		// v, ok := m[k]
 		xt := c.tyOf(r.X)
@@ -2104,6 +2183,20 @@ func (c *m3) loopShape0(s ast.Stmt, st []types.Object) (loopShape, func(string))
 			c.fail(s, "range loop that does not declare its variables with :=")
 		}
 		xt := c.tyOf(s.X)
+		if xt.k == mMap && curMode4 && c.mentions(s.X, st) {
+			// range over a map whose body writes / deletes the CURRENT key only (checked by checkOrigins4): the
+			// iterations do not see each other's effects, so the entries present at the start are visited
+			nm := func(e ast.Expr) string {
+				if id, ok := e.(*ast.Ident); ok && id.Name != "_" {
+					return c.vn(c.obj(id))
+				}
+				return "_"
+			}
+			x0 := c.ex(s.X)
+			c.needVar("map_order", "forall K V : Type, list (K * V) -> list (K * V)", s)
+			c.note(s, "range over a map: the order is the Section variable map_order (any permutation); the body writes the map at the current key only")
+			return loopShape{list: fmt.Sprintf("(map_order _ _ (Go3.mentries %s))", x0), elem: fmt.Sprintf("'(%s, %s)", nm(s.Key), nm(s.Value))}, nil
+		}
 		if c.mentions(s.X, st) {
 			// for i, x := range b { .. b[i] = .. }: the slice header is evaluated once, the elements are read from
 			// the (shared) array at each iteration: exact as long as the body only writes elements of b
